@@ -30,13 +30,25 @@ type countingCtx struct {
 	done     chan struct{}
 	onFlip   func()
 	deadline time.Time // a deadline far in the future, when the context is to carry one
+	flipErr  error     // what Err() reports once flipped (default context.Canceled)
+}
+
+// expire ends the context the way a passing deadline does.
+func (c *countingCtx) expire() {
+	if c.flipped {
+		return
+	}
+	c.flipped = true
+	c.flipErr = context.DeadlineExceeded
+	c.deadline = time.Now().Add(-time.Millisecond)
+	close(c.done)
 }
 
 func newCountingCtx(flipAt int) *countingCtx {
 	return &countingCtx{flipAt: flipAt, done: make(chan struct{})}
 }
 
-func (c *countingCtx) Deadline() (time.Time, bool)   { return time.Time{}, false }
+func (c *countingCtx) Deadline() (time.Time, bool)   { return c.deadline, !c.deadline.IsZero() }
 func (c *countingCtx) Done() <-chan struct{}         { return c.done }
 func (c *countingCtx) Value(interface{}) interface{} { return nil }
 func (c *countingCtx) Err() error {
@@ -49,6 +61,9 @@ func (c *countingCtx) Err() error {
 		}
 	}
 	if c.flipped {
+		if c.flipErr != nil {
+			return c.flipErr
+		}
 		return context.Canceled
 	}
 	return nil
@@ -60,6 +75,9 @@ type c15Point struct {
 	// DL: the context additionally carries a deadline one hour in the future (a WithTimeout
 	// context, or a cancellable child of one); the cancellation itself is explicit as before.
 	DL bool `json:"future_deadline,omitempty"`
+	// Expire: the context ends at this point because its deadline passes (Err() = DeadlineExceeded)
+	// instead of by an explicit cancel().
+	Expire bool `json:"ends_by_deadline,omitempty"`
 }
 
 type c15Result struct {
@@ -115,6 +133,10 @@ func c15Run(c *val.Case, prep *val.Prepared, pt c15Point) (*c15Result, error) {
 		if pt.DL {
 			cctx.deadline = time.Now().Add(time.Hour)
 		}
+		if pt.Expire {
+			cctx.flipErr = context.DeadlineExceeded
+			cctx.deadline = time.Now().Add(-time.Millisecond) // has passed by the time anyone asks
+		}
 		cctx.onFlip = func() {
 			// an Err() call is never made from inside an action list
 			lastExec = ""
@@ -136,7 +158,12 @@ func c15Run(c *val.Case, prep *val.Prepared, pt c15Point) (*c15Result, error) {
 		res.Cancelled = true
 		res.AtCancel = obs.Capture(live, dc)
 	default:
-		if pt.DL {
+		if pt.Expire {
+			// a context whose deadline passes exactly at the point
+			ectx := newCountingCtx(0)
+			ectx.deadline = time.Now().Add(time.Hour)
+			ctx, cancel = ectx, ectx.expire
+		} else if pt.DL {
 			// a cancellable child of a context with a far deadline
 			parent, pcancel := context.WithTimeout(context.Background(), time.Hour)
 			defer pcancel()
@@ -285,7 +312,7 @@ type c15Replay struct {
 }
 
 func TestC15(t *testing.T) {
-	col := stats.New("C15", "rule sets with counted probes in conditions and actions; an un-cancelled baseline run counts the engine's ctx.Err() calls n, the listener events m and the probe invocations p; cancellation points are then enumerated, not timed: (a) a counting context whose Err()/Done() flip at the k-th Err() call, k = 1..n+1 (this reaches every check-point the engine has: before the first cycle, between two evaluations, on entry of a rule evaluation, on entry of a rule execution, between cycles), (b) cancel() called from inside the j-th listener event and from inside the q-th probe invocation (in a condition or in an action), (c) a context cancelled before the call, (d) an expired deadline; every point of (a)-(c) also with a context that additionally carries a deadline one hour in the future (WithTimeout, a cancellable child of it, or the counting context reporting one). All points in the thorough tier, up to 20 per case in quick. Oracle: the call returns an error matching the context's error (nil is tolerated only if nothing at all happened after the cancellation); the fact data at return equals the data captured at the cancellation point, except when the cancellation happened inside an action list, where it must equal the reference replay of a prefix of that rule's own actions; an already cancelled context produces no event. The ExecuteRuleEntry event is deliberately not counted as an action start (the engine emits it before the action's own context check). Non-trivial: cancellation landed after at least one firing and was reached. Distinct by rule text + state + point.",
+	col := stats.New("C15", "rule sets with counted probes in conditions and actions; an un-cancelled baseline run counts the engine's ctx.Err() calls n, the listener events m and the probe invocations p; cancellation points are then enumerated, not timed: (a) a counting context whose Err()/Done() flip at the k-th Err() call, k = 1..n+1 (this reaches every check-point the engine has: before the first cycle, between two evaluations, on entry of a rule evaluation, on entry of a rule execution, between cycles), (b) cancel() called from inside the j-th listener event and from inside the q-th probe invocation (in a condition or in an action), (c) a context cancelled before the call, (d) an expired deadline; every point of (a)-(c) also with a context that additionally carries a deadline one hour in the future (WithTimeout, a cancellable child of it, or the counting context reporting one), and every point of (a)-(b) also with a context that ends at that point because its deadline passes (Err() = DeadlineExceeded). All points in the thorough tier, up to 30 per case in quick. Oracle: the call returns an error matching the context's error (nil is tolerated only if nothing at all happened after the cancellation); the fact data at return equals the data captured at the cancellation point, except when the cancellation happened inside an action list, where it must equal the reference replay of a prefix of that rule's own actions; an already cancelled context produces no event. The ExecuteRuleEntry event is deliberately not counted as an action start (the engine emits it before the action's own context check). Non-trivial: cancellation landed after at least one firing and was reached. Distinct by rule text + state + point.",
 		"physical timing is replaced by logical cancellation points; a cancellation that arrives between two check-points is represented by the next check-point")
 	defer col.Flush()
 	rc := fullRuleCfg()
@@ -328,11 +355,18 @@ func TestC15(t *testing.T) {
 				pts = append(pts, p)
 			}
 		}
-		if !stats.Thorough() && len(pts) > 20 {
+		// and the points of (a) and (b) once more with a context that ends there because its deadline passes
+		for _, p := range append([]c15Point{}, pts...) {
+			if !p.DL && (p.Kind == "errcall" || p.Kind == "event" || p.Kind == "probe") {
+				p.Expire = true
+				pts = append(pts, p)
+			}
+		}
+		if !stats.Thorough() && len(pts) > 30 {
 			exhaustiveAll = false
 			perm := rapid.Permutation(indexes(len(pts))).Draw(rt, "points")
 			var sel []c15Point
-			for _, i := range perm[:20] {
+			for _, i := range perm[:30] {
 				sel = append(sel, pts[i])
 			}
 			pts = sel
@@ -358,7 +392,7 @@ func TestC15(t *testing.T) {
 				}
 			}
 			nt := r.Cancelled && firingsBefore >= 1
-			labels := append(featLabels(rs), "point:"+pt.Kind, fmt.Sprintf("reached:%v", r.Cancelled), fmt.Sprintf("future_deadline:%v", pt.DL))
+			labels := append(featLabels(rs), "point:"+pt.Kind, fmt.Sprintf("reached:%v", r.Cancelled), fmt.Sprintf("future_deadline:%v", pt.DL), fmt.Sprintf("ends_by_deadline:%v", pt.Expire))
 			if r.InFiringOf != "" {
 				labels = append(labels, "cancelled_inside_action_list")
 			}
